@@ -1041,7 +1041,7 @@ pub fn gen_spec(r: &mut Rng) -> SeedSpec {
     if r.chance(1, 500) {
         return SeedSpec::HopChain { seed: r.below(1 << 30) };
     }
-    if r.chance(1, 300) {
+    if r.chance(1, 100) {
         return SeedSpec::SiblingWalk { seed: r.below(1 << 30) };
     }
     if r.chance(1, 300) {
